@@ -965,6 +965,46 @@ fn main() {
             }
             println!("ok line locate point");
         }
+        "compose_many_i64" => {
+            let a = AffineTransform::translate(1i64, 2);
+            let b1 = AffineTransform::new(2i64, 0, 0, 0, 3, 0);
+            let b2 = AffineTransform::new(0i64, -1, 0, 1, 0, 5);
+            let b3 = AffineTransform::new(1i64, 1, 0, 0, 1, 0);
+            for p in [c(1, 1), c(-3, 4), c(0, 0)] {
+                let seq = |ts: &[AffineTransform<i64>]| ts.iter().fold(a.apply(p), |q, t| t.apply(q));
+                for ts in [vec![], vec![b1], vec![b1, b2], vec![b2, b1], vec![b1, b2, b3], vec![b3, b1, b2]] {
+                    let got = a.compose_many(&ts).apply(p);
+                    if got != seq(&ts) {
+                        fail(format!("compose_many of {} transforms applied to {:?}: {:?}, sequential application gives {:?}", ts.len(), p, got, seq(&ts)));
+                    }
+                }
+            }
+            println!("ok compose many");
+        }
+        "extremes" => {
+            use geo::Extremes;
+            use geo_types::{LineString, MultiPolygon, Polygon};
+            let sq = |x0: i64, y0: i64, x1: i64, y1: i64| -> LineString<i64> { vec![(x0, y0), (x1, y0), (x1, y1), (x0, y1), (x0, y0)].into() };
+            // indices refer to the EXTERIOR traversal: the hole of the first member does not shift them
+            let mp = MultiPolygon(vec![Polygon::new(sq(0, 0, 4, 4), vec![sq(1, 1, 2, 2)]), Polygon::new(sq(10, 10, 12, 12), vec![])]);
+            let e = mp.extremes().unwrap();
+            let got = [(e.x_min.index, e.x_min.coord), (e.y_min.index, e.y_min.coord), (e.x_max.index, e.x_max.coord), (e.y_max.index, e.y_max.coord)];
+            let want = [(0usize, c(0, 0)), (0, c(0, 0)), (6, c(12, 10)), (7, c(12, 12))];
+            if got != want {
+                fail(format!("extremes of a multi-polygon whose first member has a hole: {:?}, expected {:?}", got, want));
+            }
+            // a hole reaching outside the shell (invalid, but extremes is about the exterior only)
+            let odd = Polygon::new(sq(0, 0, 4, 4), vec![sq(1, 1, 9, 2)]);
+            let e = odd.extremes().unwrap();
+            if (e.x_max.index, e.x_max.coord) != (1, c(4, 0)) {
+                fail(format!("extremes looked at an interior ring: x_max {:?}", e.x_max));
+            }
+            let none: LineString<i64> = LineString::new(vec![]);
+            if none.extremes().is_some() {
+                fail("extremes of an empty line string".to_string());
+            }
+            println!("ok extremes");
+        }
         _ => {
             eprintln!("unknown op {op}");
             std::process::exit(4);
